@@ -180,12 +180,15 @@ def run(rep, tier, rng):
     cases = []
     for k in list(range(0, 20 if tier == "quick" else 70)) + [31, 32, 33]:
         cases.append("%d %d %d %d" % (r.choice([0, 1000, 2**20]), 3000000, k, r.below(10**6)))
+    # the same scenario inside the fresh context of a called procedure (memory and advice map of that context)
+    for k in (1, 2, 5, 8, 17):
+        cases.append("%d %d %d %d c" % (r.choice([0, 1000]), 3000000, k, r.below(10**6)))
     for nl in [1, 2, 3, 5, 0xffff, 0x1ffff, 0x2ffff, 0x3ffff, 2**31, 2**32 - 1, 2**32 - 2] + [r.below(2**32) for _ in range(n // 3)]:
         cases.append("%d %d %d %d 1" % (r.choice([0, 1000]), 3000000, nl, r.below(10**6)))
     for c, x in zip(cases, common.run_impl("mmr", cases, tag="c18r")):
         dist["mmr:%s" % x.split()[0]] += 1
         f = dict(kv.split("=", 1) for kv in x.split()[1:]) if x.startswith("OK") else {}
-        bad = [k for k, v in f.items() if (k == "get" and v != "-") or (k not in ("get", "peaks") and v == "0") or (k == "peaks" and v == "0" and len(c.split()) == 4)]
+        bad = [k for k, v in f.items() if (k == "get" and v != "-") or (k not in ("get", "peaks") and v == "0") or (k == "peaks" and v == "0" and (len(c.split()) == 4 or c.endswith(" c")))]
         if not x.startswith("OK") or bad:
             rep.violation("the MMR procedures differ from the native Merkle mountain range (%s)" % (",".join(bad) or x[:80]),
                           {"kind": "search", "family": "mmr", "case": c, "impl": x[:600]})
